@@ -497,8 +497,109 @@ def run_spend(case):
     return res
 
 
+# ------------------------------------------------------------------ toy instance: CHECKMULTISIG exhaustively
+def toy_nonce(c, d, z, salt=0):
+    """deterministic nonce with r != 0 and s != 0 on the toy curve"""
+    import hashlib
+
+    for ctr in range(1000):
+        k = 1 + int.from_bytes(hashlib.sha256(b"c06toy" + bytes([salt, ctr]) + d.to_bytes(2, "big") + z.to_bytes(32, "big")).digest(), "big") % (c.n - 1)
+        if c.ecdsa_sign_k(d, z, k) is not None:
+            return k
+    raise RuntimeError("no nonce")
+
+
+def gen_toy_ms(toy):
+    def g(tier, seed):
+        n = toy[1]
+        cases = []
+        for a, b in itertools.combinations(range(1, n), 2):
+            cases.append({"toy": list(toy), "keys": [a, b]})
+        step = 7 if tier == "quick" else 1
+        for t in list(itertools.combinations(range(1, n), 3))[::step]:
+            cases.append({"toy": list(toy), "keys": list(t)})
+        return cases
+
+    return g
+
+
+def run_toy_ms(case):
+    from buidl import pecc
+    from mc.core import current_toy
+
+    res = Res()
+    toy = tuple(case["toy"])
+    assert current_toy() == toy and pecc.N == toy[1]
+    c = ec.toy_curve(*toy)
+    keys = case["keys"]
+    n = len(keys)
+    foreign = next(d for d in range(1, c.n) if d not in keys and c.mulg(d)[0] not in [c.mulg(k)[0] for k in keys])
+    secs = [c.sec(c.mulg(d)) for d in keys]
+    order = sorted(range(n), key=lambda i: secs[i])
+    vc0 = {"engine": f"toy-multisig-{toy[0]}", "toy": list(toy)}
+    only = case.get("only")
+    for m in range(1, n + 1):
+        script = bytes([0x50 + m]) + b"".join(txref.push(secs[i]) for i in order) + bytes([0x50 + n, 0xAE])
+        for stype in ("p2sh", "p2wsh"):
+            amount = 70000
+            spk = b"\xa9\x14" + txref.h160(script) + b"\x87" if stype == "p2sh" else b"\x00\x20" + txref.sha256(script)
+            base = {"version": 2, "locktime": 0, "segwit": stype == "p2wsh", "ins": [{"prev": b"\x31" * 32, "index": 1, "script": b"", "seq": 0xFFFFFFFD, "witness": []}], "outs": [{"amount": 60000, "script": b"\x51"}]}
+            spent = [(amount, spk)]
+            if stype == "p2sh":
+                z = int.from_bytes(txref.sighash_legacy(base, 0, script, 1), "big")
+            else:
+                z = int.from_bytes(txref.sighash_bip143(base, 0, script, amount, 1), "big")
+            sigs = {}
+            for j, d in list(enumerate(keys)) + [("f", foreign)]:
+                rs = c.ecdsa_sign_k(d, z, toy_nonce(c, d, z))
+                sigs[j] = ec.der_sig(*rs) + b"\x01"
+            # a signature by a script key over ANOTHER transaction
+            z2 = (z + 1) % 2**256
+            sigs["w"] = ec.der_sig(*c.ecdsa_sign_k(keys[0], z2, toy_nonce(c, keys[0], z2, 1))) + b"\x01"
+            sigs["e"] = b""
+            alphabet = list(range(n)) + ["f", "w", "e"]
+            for combo in itertools.product(alphabet, repeat=m):
+                if only and only != [m, stype, [str(x) for x in combo]]:
+                    continue
+                items = [b""] + [sigs[x] for x in combo]
+                tx = copy_tx(base)
+                if stype == "p2sh":
+                    tx["ins"][0]["script"] = txref.script_from_items(items + [script])
+                else:
+                    tx["ins"][0]["witness"] = items + [script]
+                ref_ok = interp.verify_input(tx, 0, spent, c, relaxed=True)
+                lib_ok = lib_verify(tx, spent, 0)
+                vc = dict(vc0, case=dict(case, only=[m, stype, [str(x) for x in combo]]))
+                honest = all(isinstance(x, int) for x in combo) and [order.index(x) for x in combo] == sorted(order.index(x) for x in combo) and len(set(combo)) == m
+                if lib_ok and not ref_ok:
+                    kinds = "".join("k" if isinstance(x, int) else x for x in combo)
+                    res.violation(f"C06/toy-multisig/{stype}/{m}of{n}/accepts-{kinds}", vc, True, False, f"{m}-of-{n} {stype}: signature slots {combo} accepted although the reference rejects")
+                elif honest and not lib_ok:
+                    res.violation(f"C06/toy-multisig/{stype}/{m}of{n}/rejects-honest", vc, False, True, f"{m}-of-{n} {stype}: distinct script keys signing in script order rejected")
+                else:
+                    res.evaluations += 1
+                    res.outcomes["rejected==ref" if not lib_ok and not ref_ok else ("accepted==ref" if lib_ok else "library stricter than reference")] += 1
+                    res.nontrivial_bulk += 1
+    return res
+
+
+def copy_tx(tx):
+    import copy
+
+    return copy.deepcopy(tx)
+
+
 def engines(tier, seed):
+    toy = (43, 31)
     return [
+        Engine(
+            f"toy-multisig-{toy[0]}",
+            gen_toy_ms(toy),
+            run_toy_ms,
+            toy=toy,
+            kind="E3",
+            rule="toy curve p=43 n=31: every pair and every 7th triple (thorough: every triple) of script keys x every m <= n x {P2SH, P2WSH} x every assignment of the m signature slots from {signature by each script key, by a foreign key, by a script key over another transaction, empty}: Tx.verify_input True => reference (toy-curve, authorisation mode) valid; distinct keys in script order must be accepted",
+        ),
         Engine(
             "spend",
             gen_spend,
